@@ -37,6 +37,37 @@ func c05Gen(r *rand.Rand, tier string, mode string) []Case {
 		n, maxOps = 5000, 120
 	}
 	var out []Case
+	if !withBank {
+		// fixed cases: every pair of journalled kinds on one account (an existing one, 1, and a new one, 4) with the snapshot
+		// between them — the second is reverted, the first must stay; then the same with a second snapshot after the pair
+		kinds := func(a int) []string {
+			return []string{fmt.Sprintf("addbal %d 7", a), fmt.Sprintf("subbal %d 3", a), fmt.Sprintf("setnonce %d 4", a), fmt.Sprintf("setstate %d 1 2", a),
+				fmt.Sprintf("setstate %d 1 0", a), fmt.Sprintf("suicide %d", a), fmt.Sprintf("createacct %d", a), fmt.Sprintf("accaddr %d", a), "addrefund 9", "addlog"}
+		}
+		for _, a := range []int{1, 4} {
+			for _, k1 := range kinds(a) {
+				c := Case{"sreset 500 300 2"}
+				id := 0
+				for _, k2 := range kinds(a) {
+					c = append(c, k1, "snap", k2, fmt.Sprintf("revert %d", id), "dump")
+					id++
+				}
+				c = append(c, "dump", "commit", "dump")
+				out = append(out, c)
+			}
+		}
+		// CREATE over a funded object whose init code self-destructs, inside a frame that reverts (the balance carried
+		// over into the new object must come back with the old one)
+		for _, a := range []int{0, 1} {
+			out = append(out, Case{"sreset 500 300 2", "dump", "snap", fmt.Sprintf("createacct %d", a), fmt.Sprintf("suicide %d", a), "dump", "revert 0", "dump", "commit", "dump"},
+				Case{"sreset 500 300 2", fmt.Sprintf("addbal %d 5", a), "snap", "snap", fmt.Sprintf("createacct %d", a), fmt.Sprintf("selfdestruct %d 2 ?", a), "revert 1", "dump", "revert 0", "dump", "commit", "dump"})
+		}
+		// a Commit inside the reverted span (what a precompile call does) for an object that is dirty outside the span: the
+		// final Commit has to write the reverted values back over the flushed ones
+		for _, k := range []string{"setstate 1 0 5", "setnonce 1 9", "addbal 1 11", "setstate 1 1 0"} {
+			out = append(out, Case{"sreset 500 300 2", "setstate 1 1 2", "setnonce 1 4", "dump", "snap", k, "commit", "dump", "revert 0", "dump", "commit", "dump"})
+		}
+	}
 	for i := 0; i < n; i++ {
 		bal := []int64{int64(100 + r.Intn(1000)), int64(r.Intn(500)), int64(r.Intn(3))}
 		c := Case{fmt.Sprintf("sreset %d %d %d", bal[0], bal[1], bal[2])}
